@@ -2328,31 +2328,15 @@ func (k *Kernel) loadInitialCommittingView(ctx context.Context, s *kState) error
 		s.Committing.RoundView.PrevCommitProof = ch.Proof
 	}
 
-	var maxPower uint64
-	var committingHash string
-
-	dist := newVoteDistribution(rv.PrecommitProofs, rv.ValidatorSet.Validators)
-	for blockHash, pow := range dist.BlockVotePower {
-		if pow > maxPower {
-			maxPower = pow
-			committingHash = blockHash
-		}
+	// The committing header itself was saved to the committed header store
+	// before the stored position moved to this height.
+	// Guessing it from the vote distribution is ambiguous
+	// once validators have precommitted more than one block in this round.
+	committing, err := k.hStore.LoadCommittedHeader(ctx, h)
+	if err != nil {
+		return fmt.Errorf("failed to load committing header at height %d: %w", h, err)
 	}
-
-	// Now find which proposed block matches the hash.
-	for _, ph := range rv.ProposedHeaders {
-		if string(ph.Header.Hash) == committingHash {
-			s.CommittingHeader = ph.Header
-			break
-		}
-	}
-
-	if len(s.CommittingHeader.Hash) == 0 {
-		panic(fmt.Errorf(
-			"BUG: failed to determine committing block at height=%d/round=%d, expected hash %x",
-			h, r, committingHash,
-		))
-	}
+	s.CommittingHeader = committing.Header
 
 	return nil
 }
